@@ -241,3 +241,114 @@ def sk_index_table():
 
 def text_repr(s, n=400):
     return s if len(s) <= n else s[:n] + "...(%d chars)" % len(s)
+
+
+# ------------------------------------------------------------------ symbol-table part: op log -> model case line
+def _nm(s):
+    return ",".join(str(ord(c)) for c in s) if s else "-"
+
+
+def encode_op(line, types):
+    """one H3 op-log line (tab separated) -> the token form read by `outline_run sym`.  The log carries no `Type`s:
+    the Display strings come from the final-state dump (`types`, keyed kind:index); a symbol that is no longer
+    reachable (a field re-declared in the same body) gets the empty string -- no handler can observe it."""
+    p = line.split("\t")
+    k = p[0]
+    if k == "add_record":
+        return ["AR", _nm(p[1]), "C" if p[2] == "Class" else "D", p[3], p[4], p[5], p[6], p[7]]
+    if k == "add_anonymous_def":
+        return ["AAD", _nm(p[1]), p[2], p[3], p[4], p[5]]
+    if k == "add_template_argument":
+        return ["ATA", _nm(p[1]), _nm(types.get("template_arg:" + p[5], "")), p[2], p[3], p[4], p[5]]
+    if k == "add_record_field":
+        return ["ARF", _nm(p[1]), _nm(types.get("record_field:" + p[6], "")), p[2], p[3], p[4], p[5], p[6]]
+    if k == "add_variable":
+        return ["AV", _nm(p[1]), _nm(types.get("variable:" + p[5], "")), p[2], p[3], p[4], p[5]]
+    if k == "add_defset":
+        return ["ADS", _nm(p[1]), _nm(types.get("defset:" + p[5], "")), p[2], p[3], p[4], p[5]]
+    if k == "add_multiclass":
+        return ["AMC", _nm(p[1]), p[2], p[3], p[4], p[5]]
+    if k == "add_defm":
+        return ["ADM", _nm(p[1]), p[2], p[3], p[4], p[5], p[6]]
+    if k == "add_anonymous_defm":
+        return ["AADM", _nm(p[1]), p[2], p[3], p[4], p[5]]
+    if k == "add_reference":
+        return ["REF", p[1], p[2], p[3], p[4], p[5]]
+    simple = {"record_mut": "RM", "defset_mut": "DSM", "multiclass_mut": "MCM", "defm_mut": "DMM", "record.add_parent": "RP",
+              "defset.add_def": "DAD", "multiclass.add_parent": "MP", "defm.add_parent": "DMP"}
+    if k in simple:
+        return [simple[k], p[1]]
+    named = {"record.add_template_arg": "RTA", "record.add_record_field": "RF", "multiclass.add_template_arg": "MTA"}
+    if k in named:
+        return [named[k], _nm(p[1]), p[2]]
+    if k == "error":
+        return ["ERR", p[1], p[2], p[3]]
+    raise ValueError("unknown op-log line: %r" % line)
+
+
+def sym_case_line(dump, files_text, sk_index, queries):
+    """dump = one outdump object; queries = list of token lists (['outline', fid] / ['hover', fid, offs..] / ['hints', fid, lo, hi])"""
+    secs = []
+    for l in dump["oplog"]:
+        secs.append("OP " + " ".join(encode_op(l, dump["types"])))
+    for path, fid in dump["fids"].items():
+        secs.append("FILE %d %s" % (fid, treeio.tree_line(dump["trees"][path], files_text[path].encode("utf-8"), sk_index)))
+    for q in queries:
+        secs.append("Q " + " ".join(str(x) for x in q))
+    return " || ".join(secs)
+
+
+def cps(x):
+    return "".join(chr(c) for c in x)
+
+
+def model_outline(o):
+    if o is None:
+        return None
+    return [{"name": cps(e["name"]), "typ": cps(e["typ"]), "range": e["range"], "kind": e["kind"],
+             "children": model_outline(e["children"])} for e in o]
+
+
+def real_outline_typ(o):
+    if o is None:
+        return None
+    return [{"name": e["name"], "typ": e["typ"], "range": e["range"], "kind": e["kind"],
+             "children": real_outline_typ(e["children"])} for e in o]
+
+
+def model_hover_runs(runs, fid_to_path):
+    out = []
+    for r in runs:
+        if "panic" in r:
+            out.append({"o": r["o"], "panic": r["panic"]})
+            continue
+        hv = r["hover"]
+        if hv is not None:
+            hv = {"sig": cps(hv["sig"]), "doc": (None if hv["doc"] is None else (hv["doc"] if isinstance(hv["doc"], str) else cps(hv["doc"])))}
+        d = r["def"]
+        if d is not None:
+            d = [fid_to_path.get(d[0], "#%d" % d[0]), d[1], d[2]]
+        out.append({"o": r["o"], "hover": hv, "def": d})
+    return out
+
+
+def expand_runs(runs, offsets):
+    out = {}
+    j = -1
+    for o in offsets:
+        while j + 1 < len(runs) and runs[j + 1]["o"] <= o:
+            j += 1
+        out[o] = {k: v for k, v in runs[j].items() if k != "o"} if j >= 0 else None
+    return out
+
+
+def char_offsets(text):
+    b = text.encode("utf-8")
+    return [i for i in range(len(b) + 1) if i == len(b) or (b[i] & 0xC0) != 0x80]
+
+
+def outdump(bindir, workspaces, timeout=900, chunk=40):
+    out = []
+    for ch in vlib.chunked(workspaces, chunk):
+        out += synlib.run_json_robust(os.path.join(bindir, "outdump"), [], ch, timeout)
+    return out
